@@ -8,6 +8,10 @@ import Verif.Drv.LeanMark
 import Verif.Drv.WellFormed
 import Verif.Drv.Codec
 import Verif.Drv.FrontMatter
+import Verif.Drv.RuleSpec
+import Verif.Drv.Recognisers
+import Verif.Drv.MainLoop
+import Verif.Drv.CloseLoop
 
 /-- model name → request handler (one request line in, one answer line out). -/
 def models : List (String × (String → String)) :=
@@ -29,7 +33,12 @@ def models : List (String × (String → String)) :=
    ("leanmark-events-r3", Verif.Drv.LeanMark.stepEventsR 3),
    ("wf", Verif.Drv.WellFormed.step),
    ("codec", Verif.Drv.Codec.step),
-   ("frontmatter", Verif.Drv.FrontMatter.step)]
+   ("frontmatter", Verif.Drv.FrontMatter.step),
+   ("rulespec", Verif.Drv.RuleSpec.step),
+   ("linerules", Verif.Drv.RuleSpec.stepLine),
+   ("recog", Verif.Drv.Recognisers.step),
+   ("mainloop", Verif.Drv.MainLoop.step),
+   ("closeloop", Verif.Drv.CloseLoop.step)]
 
 partial def loop (h : IO.FS.Stream) (out : IO.FS.Stream) (f : String → String) : IO Unit := do
   let line ← h.getLine
